@@ -355,6 +355,7 @@ fn close_scenario(seed: u64, thorough: bool) -> Result<Outcome, String> {
 	let mut issue_heights: Vec<Vec<u32>> = items.iter().map(|_| vec![]).collect();        // heights of A's single-input claims of the item
 	let mut multi_input: Vec<bool> = items.iter().map(|_| false).collect();
 	let mut claimed_in_block: Vec<Option<u32>> = items.iter().map(|_| None).collect();
+	let mut n_respend = 0u32;
 	let mut last_fee: BTreeMap<Vec<OutPoint>, u64> = BTreeMap::new();
 	let mut item_state: Vec<u8> = items.iter().map(|_| 0).collect();   // 0 open, 1 claimed by A, 2 taken by B
 	let mut known_since: Vec<u32> = items.iter().map(|_| close_h).collect();
@@ -408,6 +409,9 @@ fn close_scenario(seed: u64, thorough: bool) -> Result<Outcome, String> {
 					let noise = if anchors && holder_close { 4 * (*net.nodes[a].fee_estimator.sat_per_kw.lock().unwrap() as u64).max(253) / 1000 + 2 } else { 0 };
 					if let Some(f) = fee_of(&t, &prevouts) { if let Some(prev) = last_fee.get(&key) { n_rebroadcast += 1; if f + noise < *prev { out.oracle.push(format!("A's re-issued claim {} lowers its fee {} -> {}", t.compute_txid(), prev, f)); } } last_fee.insert(key, f); }
 					for inp in &t.input { if inp.previous_output.txid == ctxid { if let Some(ix) = items.iter().position(|it| it.vout == inp.previous_output.vout) {
+						// (a late preimage on a HOLDER commitment makes the monitor re-request every holder claim, also for outputs whose spend — the counterparty's or
+						// A's own — is long buried: such a transaction cannot confirm; it is counted as an observation and is not a "first issue")
+						if item_state[ix] != 0 { n_respend += 1; continue; }
 						if first_seen[ix].is_none() { first_seen[ix] = Some(h); }
 						let n_commitment_inputs = t.input.iter().filter(|x| x.previous_output.txid == ctxid).count();
 						if n_commitment_inputs == 1 { if issue_heights[ix].last() != Some(&h) { issue_heights[ix].push(h); } } else { multi_input[ix] = true; }
@@ -525,7 +529,7 @@ fn close_scenario(seed: u64, thorough: bool) -> Result<Outcome, String> {
 	if n_rebroadcast > 0 { out.ops.push(("totals".into(), format!("0 {} {} {} {}", spendable, fees, lost, entitlement), "rebroadcast-seen".into())); }
 	out.class = format!("close:{}{}:O{}:I{}:U{}:S{}", if holder_close { "holder" } else { "counterparty" }, if anchors { "-anchors" } else { "" }, cnt(K::O), cnt(K::I), cnt(K::U), cnt(K::S));
 	let dup_in = { let mut m: BTreeMap<usize, usize> = BTreeMap::new(); for it in &items { if it.hid != 0 && (it.kind == K::I || it.kind == K::U) { *m.entry(it.hid).or_insert(0) += 1; } } m.values().cloned().max().unwrap_or(0) };
-	out.est_kind = format!("{};delays:{};spent:{};mpp-sent:{};same-hash-inbound-outputs:{};late-preimages:{};late-refused:{};cp-commitment:{};release-ops:{};reissue-ops:{};closed-by:{}", out.est_kind, if d_a > d_b { "A>B" } else { "A<B" }, n_spent_descriptors.min(9), n_mpp.min(3), dup_in, n_late.min(4), n_late_refused.min(3), if holder_close { "-" } else if cp_prev { "previous" } else { "current" }, n_release.min(3), n_sched.min(3), if auto { "monitor-deadline" } else { "force_close" });
+	out.est_kind = format!("{};delays:{};spent:{};mpp-sent:{};same-hash-inbound-outputs:{};late-preimages:{};late-refused:{};cp-commitment:{};release-ops:{};reissue-ops:{};closed-by:{};obs-claims-of-outputs-already-spent-on-chain:{}", out.est_kind, if d_a > d_b { "A>B" } else { "A<B" }, n_spent_descriptors.min(9), n_mpp.min(3), dup_in, n_late.min(4), n_late_refused.min(3), if holder_close { "-" } else if cp_prev { "previous" } else { "current" }, n_release.min(3), n_sched.min(3), if auto { "monitor-deadline" } else { "force_close" }, n_respend.min(3));
 	let _ = (item_state, a_history);
 	drain(&net);
 	Ok(out)
